@@ -145,7 +145,7 @@ func (p *pparser) primary() *pnode {
 	case c == '-' || unicode.IsDigit(rune(c)):
 		st := p.pos
 		p.pos++
-		for p.pos < len(p.s) && unicode.IsDigit(rune(p.s[p.pos])) {
+		for p.pos < len(p.s) && (unicode.IsDigit(rune(p.s[p.pos])) || (p.s[p.pos] == '/' && p.pos+1 < len(p.s) && unicode.IsDigit(rune(p.s[p.pos+1])))) {
 			p.pos++
 		}
 		return &pnode{kind: "const", name: p.s[st:p.pos]}
